@@ -53,9 +53,30 @@ TEXT = {
     "C18": ("Deterministic line-granular scheduler over real threads: systematic single preemptions after every line writing shared state, double preemptions, random schedules, free-running soak; each thread vs the body executed alone. "
             "PARTIAL: preemption inside a source line and C-level effects cannot be exhibited.", "DESIGN.md section 6 C18"),
 }
-NOTE = ("Trusted: Coq 8.16.1 kernel for the theorems listed in the evidence; hand-written models bound to the code only by the correspondence runs; translator/translate.py (fail-closed) for the extracted facts; "
+
+PROVED = {
+    "C01": "the extracted priority / drop-list / type / *of / site / error facts equal the documented ones (vm_compute on the record re-read from the source); the code-shaped rule queue (pop(0), remove) evaluates exactly the rules of the declarative skip-set reading, for every duplicate-free queue and arbitrary handlers; verdict iff no errors. PARTIAL: equality with the reference interpreter on all inputs is the differential run, the Spec being the same model at documented constants.",
+    "C02": "the extracted pipeline is the documented step order with its guards; a failing coercer keeps the value, files its error at the field's path and stops the chain; unknown-field rules never touch schema fields; items of the wrong length are not normalized.",
+    "C03": "every leaf rule handler returns normally for EVERY value (any nesting, unhashable members) given a constraint of the declared shape; filing an error succeeds whenever the field's resolved rule set holds the rule. PARTIAL: the recursive skeleton and normalization are decided by the oracle and the diffed exception behaviour.",
+    "C04": "a rejected assignment keeps schema and allow_unknown in force; all entry points decide alike (expand -> validate -> commit, extracted shape); unknown rule / unknown type / normalization rule inside *of / dangling field reference are rejected at the rule set that holds them, and an ill-formed field rejects the schema. PARTIAL: rejection at every depth is decided by the corruption oracle.",
+    "C05": "every write site extracted from the normalization functions is at depth 0 of an owned copy or re-binds the nested member to a copy first, hence no run of the site machine writes into a caller- or schema-owned object; a depth-1 site without the copy is refuted.",
+    "C06": "verdict iff no errors; validated() is None iff the verdict is False (always_return_document variant too); normalized() is None iff normalization errors; validate and normalized share processed document and normalization errors. PARTIAL: the composition law is decided by the oracle.",
+    "C07": "the attributes reset by the extracted validate() prologue and __init_processing cover the per-call read sets, and any processing function that reads per-call attributes only through them yields, after ANY history, what a fresh instance yields.",
+    "C08": "with a type- and class-aware key (extracted) and equal keys implying equal validity, every submission history equals its cold run and the cold run is plain validity; the context part is REFUTED on the faithful model (bulk and *of definitions share a tag) - the recorded known finding.",
+    "C09": "the *of handler files its error exactly when the extracted comparison holds for the number of definitions that validate individually in the stated child context, with that count, the total and the failing definitions' errors; the comparisons are the documented ones; None skips them.",
+    "C10": "child configuration inherits every option and both registries; the root document is the outermost one at every depth; at each of the five sites the filed children are exactly the child validator's errors; bubbling edits schema paths only; update is forwarded; by induction over the whole model every recorded error strictly extends the validator's document path. PARTIAL: equality with standalone validation is decided by the oracle.",
+    "C11": "for ARBITRARY error lists the tree returns at every path exactly the errors with that path incl. nested children, holds nothing else, has a node exactly for prefixes of stored paths, is empty iff no errors, and look-ups by definition agree; for validator outputs the tree content is the flattening.",
+    "C12": "document paths extend the validator's path; code and rule come from one definition; value and constraint are the field's value and the resolved rule's constraint; children iff group definition. PARTIAL: schema-path resolution is decided by the oracle.",
+    "C13": "add() deep-copies first (extracted shape), rendering is a function of the error list and leaves it untouched, one insertion adds one message, a leaf error adds it under its document path only. PARTIAL: nested *of placement is decided by the diff against the real handler.",
+    "C14": "contexts that differ only in HOW field rule sets are given (inline or by name resolving to the same rules) file the same errors, evaluate excludes alike, inherit the same *of rules and compute the same required set. PARTIAL: whole-schema substitution at depth is decided by the oracle.",
+    "C15": "canonical schemas of any nesting are fixed points of expand through every recursion position; an <of>_<rule> key expands to the documented list, split at the first underscore. PARTIAL: equality of outcomes is decided by the variant oracle on the real code.",
+    "C16": "per-class cache and same-class child factory (extracted facts); a child inherits the whole configuration; a rule dispatches to the same handler at every depth. PARTIAL: Python-level subclass isolation is decided by the oracle.",
+    "C17": "the defaults work-list terminates within n(n+1)+1 iterations for ARBITRARY setters; an exception other than KeyError is local to its field. PARTIAL: the least-fixpoint characterisation is decided by the graph oracle.",
+    "C18": "non-interference over the interleaving semantics for benign shared operations; the lazy class is published complete (extracted shape); expansion of canonical schemas writes equal values; refutation schedules for the shared shorthand literal. PARTIAL by nature: preemption inside a line and C-level effects are outside any model.",
+}
+NOTE = ("Trusted: Coq 8.16.1 kernel (vm_compute, no native_compute, no axioms: Print Assumptions closed) for the theorems listed in the evidence; hand-written models bound to the code only by the correspondence runs; translator/translate.py (fail-closed) for the extracted facts; "
         "extraction (ExtrOcamlBasic, ExtrOcamlString) and driver/driver.ml; harness generators, canonicaliser and oracles; CPython 3.12. Known findings are listed in known_findings.json.")
-TECH = {"proof": "Rocq proof about the executable model + model/code correspondence check + real-code oracle",
+TECH = {"proof": "Rocq (Coq 8.16) theorems about an executable model parametrised by facts re-extracted from the source on every run + extracted-model/code correspondence check + real-code oracle for the search",
         "translation_validation": "Rocq executable model (Spec/Impl facts) diffed against the code + real-code oracle; theorems in progress",
         "exploration": "schema-directed differential oracle on the real code (Rocq model/theorems for this property in progress)"}
 
@@ -64,7 +85,7 @@ for _i in range(1, 19):
     _pid = "C%02d" % _i
     if os.path.exists(os.path.join(VERIF, "harness", "props", _pid.lower() + ".py")):
         _lv = level_of(_pid)
-        CLAIMED[_pid] = {"category": _lv, "text": TEXT[_pid][0], "design_ref": TEXT[_pid][1], "note": NOTE, "technique": TECH[_lv]}
+        CLAIMED[_pid] = {"category": _lv, "text": "PROVED in Coq (coq/theories/Properties/%s.v, closed under the global context, re-checked against the facts re-extracted from /repo on every run): %s TIE AND ORACLE: %s" % (_pid, PROVED[_pid], TEXT[_pid][0]), "design_ref": TEXT[_pid][1], "note": NOTE, "technique": TECH[_lv]}
 
 NOT_YET = "check not built yet (construction in progress; see DESIGN.md section 11)"
 
@@ -105,7 +126,7 @@ def main():
         "checks": checks,
         "not_applicable": na,
         "notes": "bin/check <ID> quick|thorough; every run re-translates /repo's working tree, rebuilds the Coq development incrementally and "
-                 "re-runs correspondence and oracles. known_findings.json lists recorded/fixed defects.",
+                 "re-runs correspondence and oracles. known_findings.json lists recorded/fixed defects. Unguarded 'fix:' commits in /repo (genuine defects repaired, DESIGN.md section 7): b9fc46d, a646f39, c178fe2, 26047ae, e7f96d1, d2518a4, f96707f, d669df6, e8f2a59, fd9d03c, a644b85, 7917653, e99beff, 0a14e11, 9b2b365, 42f9dde, d2f4b19, fc2279c, f78a6d8, 9ba42b1, 99e093f.",
     }
     with open(os.path.join(VERIF, "MANIFEST.json"), "w") as f:
         json.dump(m, f, indent=1)
